@@ -64,6 +64,8 @@ func c11Fixed(fields []string) map[string]string {
 		"/fx/child2.jet": `{{ extends "/fx/layout.jet" }}{{ import "/fx/lib2.jet" }}`,
 		"/fx/lib2.jet":   `{{ block body() }}body-of-lib2{{ end }}{{ block extra() }}x{{ end }}`,
 		"/fx/child3.jet": `{{ extends "/fx/layout.jet" }}`,
+		// one type, reached as a value that cannot be addressed and through a pointer: the method sets differ
+		"/fx/methods.jet": `{{ mv.Zeta() }}|{{ mp.Zeta() }}|{{ mp.Alpha() }}|{{ mvs[0].Zeta() }}{{ mvs[0].Alpha() }}`,
 		// channels (a fresh pair for every execution) between ranges over maps and slices: every kind of pooled cursor
 		"/fx/chans.jet": `{{ range ch }}{{ . }},{{ end }}{{ range k, v := m1 }}{{ k }}:{{ v }};{{ end }}{{ range chs }}{{ . }}{{ range k, v := m1 }}{{ k }}{{ end }}{{ end }}{{ range i, v := xs }}{{ v }}{{ end }}{{ range k, v := m0 }}{{ k }}{{ else }}no-m{{ end }}`,
 		// descriptions of named variables (globals that no goroutine changes, a block, an unknown name)
@@ -119,6 +121,8 @@ func genC11(t *rapid.T) c11Case {
 				ops = append(ops, c11Op{Op: "get", Name: names[rapid.IntRange(0, len(names)-1).Draw(t, "gname")]})
 			case op == 7:
 				ops = append(ops, c11Op{Op: "parse", Name: fmt.Sprintf("/parsed%d.jet", rapid.IntRange(0, 2).Draw(t, "pname")), Arg: rapid.SampledFrom([]string{`{{ extends "/fx/layout.jet" }}{{ block body() }}p{{ end }}`, `{{ import "/fx/lib.jet" }}{{ yield box() content }}x{{ end }}`, `plain {{ 1 + 2 }}`, `{{ if }}`}).Draw(t, "psrc")})
+			case op == 8 && rapid.IntRange(0, 2).Draw(t, "viaAddGlobalFunc") == 0:
+				ops = append(ops, c11Op{Op: "addglobalfunc", Name: rapid.SampledFrom([]string{"noisefn1", "noisefn2", "ownfn"}).Draw(t, "gfkey")})
 			case op == 8:
 				ops = append(ops, c11Op{Op: "addglobal", Name: rapid.SampledFrom([]string{"noise1", "noise2", "g_read", "own", "own", "own"}).Draw(t, "gkey")})
 			case op == 9:
@@ -166,6 +170,9 @@ func c11Build(c c11Case, structType reflect.Type) *c11World {
 	for k, r := range c.Prog.Vars {
 		s.AddGlobal(k, mj.Build(r))
 	}
+	s.AddGlobal("mv", c11Both{N: 1})
+	s.AddGlobal("mp", &c11Both{N: 2})
+	s.AddGlobal("mvs", []c11Both{{N: 3}})
 	s.AddGlobal("g_read", "G")
 	s.AddGlobal("xs", []int{1, 2, 3})
 	s.AddGlobal("m1", map[string]int{"k": 1})
@@ -180,6 +187,15 @@ func c11Build(c c11Case, structType reflect.Type) *c11World {
 	}
 	return &c11World{set: s, loader: l, files: files, data: [2]interface{}{mk("d0"), mk("d1")}}
 }
+
+// c11Both has a pointer-receiver method that sorts before its value-receiver method.
+type c11Both struct{ N int }
+
+func (b *c11Both) Alpha() string { return fmt.Sprintf("alpha%d", b.N) }
+func (b c11Both) Zeta() string   { return fmt.Sprintf("zeta%d", b.N) }
+
+// renderings that do not depend on the case
+var c11Known = map[string]string{"/fx/methods.jet": "zeta1|zeta2|alpha2|zeta3alpha3"}
 
 type c11Result struct {
 	out, pos string
@@ -283,6 +299,12 @@ func judgeC11(c c11Case) (v core.Verdict) {
 						} else {
 							world.set.AddGlobal(op.Name, wi)
 						}
+					case "addglobalfunc":
+						key := op.Name
+						if key == "ownfn" {
+							key = fmt.Sprintf("ownfn%d", wi)
+						}
+						world.set.AddGlobalFunc(key, func(a jet.Arguments) reflect.Value { return reflect.ValueOf(wi) })
 					case "lookupglobal":
 						world.set.LookupGlobal(op.Name)
 					case "loaderset":
@@ -331,6 +353,10 @@ func judgeC11(c c11Case) (v core.Verdict) {
 		if !ok {
 			w = private.exec(o.op.Name, o.op.Data)
 			want[k] = w
+		}
+		if abs, known := c11Known[o.op.Name]; known && (o.got.failed || o.got.out != abs) && problem == "" {
+			// (process-wide caches poison the run alone as well: for templates with a known rendering, compare with that)
+			problem = fmt.Sprintf("worker %d: Execute(%s) gave out=%q err=%q; it renders %q", o.worker, o.op.Name, o.got.out, o.got.pos, abs)
 		}
 		if o.got != w && problem == "" {
 			problem = fmt.Sprintf("worker %d: Execute(%s, data %d) concurrently gave out=%q err=%q failed=%v; alone it gives out=%q err=%q failed=%v", o.worker, o.op.Name, o.op.Data, o.got.out, o.got.pos, o.got.failed, w.out, w.pos, w.failed)
